@@ -72,6 +72,9 @@ def classify(rc, err):
                 return 'stack-overflow:macro-expansion-recursion'
             if any('nested_parse_template_instantiation' in f for f in names):
                 return 'stack-overflow:nested-template-instantiation'
+            if names and all(re.search(r'CPPStructType::(is_trivial|is_\w*constructible|is_\w*assignable|is_destructible|is_constructible|is_standard_layout|is_empty|check_virtual)$', f) or
+                             re.search(r'CPP\w*Type::is_\w+$', f) for f in names):
+                return 'stack-overflow:class-containing-itself'
             return 'stack-overflow:' + '/'.join(n.split('::')[-1] for n in names[:3])
         return 'asan:%s:%s' % (m.group(1), '/'.join(own[:2]))
     m = re.search(r'runtime error: (.*)', err)
